@@ -116,6 +116,28 @@ def gen_cases(ctx, rng):
         cases.append({"dir": rng.choice(["upstream", "downstream"]), "chain": chain, "src": src, "ops": ops,
                       "horizon": 36000 * 1000 * L.MS, "seed": 3000 + i})
         stats["switched_while_holding"] = stats.get("switched_while_holding", 0) + 1
+    # the other way round: a toxic that is switched off for this connection (toxicity 0: its stage passes data through) is switched on
+    # while that stage is blocked handing a chunk to a receiver that is slow (or to a busy next stage); and back
+    for i in range(16 if ctx.tier == "quick" else 400):
+        real = rng.choice([L.tx("latency", name="t0", latency=rng.choice([50, 400]), jitter=0), L.tx("bandwidth", name="t0", rate=rng.choice([5, 50])),
+                           L.tx("slicer", name="t0", average_size=80, size_variation=0, delay=3000), L.tx("slow_close", name="t0", delay=200)])
+        real["toxicity"] = 0
+        slow = rng.choice([150, 400, 1200]) * L.MS
+        chain = [real] + ([L.tx("noop", name="t1")] if rng.chance(1, 3) else [])
+        src, t = [], 1 * L.MS
+        for _ in range(rng.range(4, 9)):
+            src.append({"at": t, "n": rng.range(1, 900)})
+            t += rng.choice([0, 1, 40]) * L.MS + rng.range(0, 999)
+        t1 = rng.range(1, 5) * slow // 2 + rng.range(1, 50) * L.MS + 333
+        ops = [{"at": t1, "op": "update", "name": "t0", "body": json.dumps({"toxicity": 1})}]
+        if rng.chance(1, 2):
+            ops.append({"at": t1 + rng.range(1, 4) * slow + 777, "op": rng.choice(["update", "remove"]), "name": "t0", "body": json.dumps({"toxicity": 0})})
+            if ops[-1]["op"] == "remove":
+                del ops[-1]["body"]
+        src.append({"at": max(t, ops[-1]["at"]) + 30 * slow, "close": True})
+        cases.append({"dir": rng.choice(["upstream", "downstream"]), "chain": chain, "src": src, "ops": ops, "sink_delay": [slow],
+                      "horizon": 36000 * 1000 * L.MS, "seed": 3500 + i})
+        stats["switched_on_while_blocked"] = stats.get("switched_on_while_blocked", 0) + 1
     return cases, stats
 
 
